@@ -1,4 +1,5 @@
 import CtrlVerif.Props.C19
+import CtrlVerif.Props.C19Gen
 
 #print axioms CtrlVerif.C19.reset_restores
 #print axioms CtrlVerif.C19.reset_restores_value
@@ -21,3 +22,11 @@ import CtrlVerif.Props.C19
 #print axioms CtrlVerif.C19.params_protocol
 #print axioms CtrlVerif.C19.params_code_counterexample
 #print axioms CtrlVerif.C19.params_code_ok_unless_bare_call
+#print axioms CtrlVerif.C19Gen.generated_checkDeprecation_eq
+#print axioms CtrlVerif.C19Gen.generated_missing_eq
+#print axioms CtrlVerif.C19Gen.generated_getitem_eq
+#print axioms CtrlVerif.C19Gen.generated_setitem_eq
+#print axioms CtrlVerif.C19Gen.generated_setDefaults_eq
+#print axioms CtrlVerif.C19Gen.generated_update_eq
+#print axioms CtrlVerif.C19Gen.generated_resetDefaults_eq
+#print axioms CtrlVerif.C19Gen.generated_reset_restores
